@@ -23,6 +23,30 @@ CLAIMED = True
 COQ_MODULES = ["C02_Check", "C02_Tiling", "C02_Generations", "C02_Proofs", "C02_Cm"]
 PROPERTY_MODULE = "C02_Property"
 ALLOWED_AXIOMS = []
+
+# The MiniPy model of these functions is regenerated from the current source on every run
+# (harness/pytrans.py) and proved equal to the hand-written models in coq/translated/TV_C01.v.
+TRANSLATION = {
+    "spec": {
+        "module": "Gen_SimGenotype",
+        "classes": [("haptools/admix_storage.py", "HaplotypeSegment", 1),
+                    ("haptools/admix_storage.py", "GeneticMarker", 2)],
+        "functions": [
+            ("haptools/sim_genotype.py", "_find_coord"),
+            ("haptools/sim_genotype.py", "_find_random_sample"),
+            ("haptools/sim_genotype.py", "start_segment"),
+            ("haptools/sim_genotype.py", "get_segment"),
+            # the per-child loop of _simulate: from `prev_chrom = chroms[0]` to just before `hap_samples.append(segments)`
+            ("haptools/sim_genotype.py", "_simulate", {
+                "name": "_simulate_child", "loop_target": "sample", "from_assign": "prev_chrom",
+                "until_append_to": "hap_samples", "result": "segments",
+                "params": ["chroms", "end_coords", "p_pop", "haps", "homolog", "true_coords", "prev_gen_samples",
+                           "segments"]}),
+        ],
+    },
+    "models": ["TVM_C01"],   # definitions only: evaluation of the translated code (tv_kernel relation)
+    "proofs": ["TV_C01", "TV_C01_Child"],    # translation-validation theorems
+}
 RULE = (
     "configurations: 1-4 chromosomes of 1..22,X, 2-9 markers with zero/tiny/huge cM gaps, 2-3 source populations "
     "incl. zero fractions and pulses, 1-4 model lines, optional --region, popsize 2..30, 1-3 samples; "
